@@ -81,7 +81,7 @@ Print Assumptions C02_walk_sees_the_list.
 (** Swap, general branch: proved under the two preconditions the code does not test; the statement without them is false
     of the model and of the code (C02_swap_with_first_chunk_refuted; replayed on the binary by the hook).  The neighbour
     branches (Remove + AddBefore) follow below; all branches together: C02_swap_keeps_every_chunk.  PARTIAL: SwapLines
-    (two fuel-bounded loops over these operations) and AddHead/AddTail are covered by the correspondence only. *)
+    (two fuel-bounded loops over these operations) is covered by the correspondence only. *)
 Theorem C02_swap_far_partial : forall s l a b,
   repr s l -> In a l -> In b l -> a <> b -> prv s a <> b -> prv s b <> a ->
   prv s a <> 0 -> prv (remove s a) b <> 0 ->
@@ -121,3 +121,23 @@ Theorem C02_reordering_keeps_every_chunk : forall fuel ops s l, repr s l -> safe
   exists l', repr (fold_left (step fuel) ops s) l' /\ Permutation l l'.
 Proof. exact reordering_keeps_every_chunk. Qed.
 Print Assumptions C02_reordering_keeps_every_chunk.
+
+Theorem C02_add_head : forall s l o, repr s l -> o <> 0 -> ~ In o l ->
+  repr (add_head s o) (o :: l) /\ isnl (add_head s o) = isnl s /\ nlc (add_head s o) = nlc s.
+Proof. exact add_head_repr. Qed.
+Print Assumptions C02_add_head.
+
+Theorem C02_add_tail : forall s l o, repr s l -> o <> 0 -> ~ In o l ->
+  repr (add_tail s o) (l ++ [o]) /\ isnl (add_tail s o) = isnl s /\ nlc (add_tail s o) = nlc s.
+Proof. exact add_tail_repr. Qed.
+Print Assumptions C02_add_tail.
+
+(** every reachable state from the empty list (no hypothesis about an initial state left) *)
+Theorem C02_list_from_empty : forall fuel ops, oks2 [] ops -> repr (cl_run fuel ops) (fold_left abs_op2 ops []).
+Proof. exact list_from_empty. Qed.
+Print Assumptions C02_list_from_empty.
+
+Example C02_list_from_empty_example :
+  oks2 [] [NewAfter 1 0 false 0; NewBefore 2 0 true 1; NewBefore 3 2 false 0; NewAfter 4 1 false 0; MoveAfter 1 2; Delete 4]
+  /\ fold_left abs_op2 [NewAfter 1 0 false 0; NewBefore 2 0 true 1; NewBefore 3 2 false 0; NewAfter 4 1 false 0; MoveAfter 1 2; Delete 4] [] = [3; 2; 1].
+Proof. exact list_from_empty_example. Qed.
